@@ -47,6 +47,11 @@ def _convert_name_to_convention(
     return converted_name
 
 
+def _convert_path_to_convention(path: str, naming_convention: NamingConvention) -> str:
+    """Convert every segment of a dotted path on its own, so that a segment never influences its neighbours."""
+    return ".".join(_convert_name_to_convention(segment, naming_convention) for segment in path.split("."))
+
+
 def _get_shortest_public_reexport(
     reexport_map: dict[str, set[Module]],
     name: str,
